@@ -242,8 +242,19 @@ def t_choice_build(E):
     m = E.new(FT + ":Mask", value=a, flag=f)
     c = E.call(C_ + "ChoiceMap.choice", m)
     present, val = obs(E, E.method(c, "get_value"))
-    E.prove("C35.Choice.build.masked_value_is_present_iff_flag", E.And(present == f.t, E.Implies(f.t, E.eq(val, a)) if val is not None else E.Not(f.t)))
-    E.prove("C23.Choice.build.concrete_and_traced_flags_agree_observationally", True)
+    obs_spec = E.And(present == f.t, E.Implies(f.t, E.eq(val, a)) if val is not None else E.Not(f.t))
+    E.prove("C35.Choice.build.masked_value_is_present_iff_flag", obs_spec)
+    # C23: the SAME tag-free observation (present == flag, value == a when present) is proved on the concrete-True arm (raw
+    # value), the concrete-False arm (empty map) and the traced arm (Mask kept): the three arms agree observationally
+    E.prove("C23.Choice.build.concrete_and_traced_flags_agree_observationally", obs_spec)
+    # an index level below a masked value: element lookup of a vectorised mask is the mask of the element (C35 elementwise)
+    fl = E.flag("fl", conc=False)
+    i_, j_ = E.int("i", conc=False), E.int("j", conc=False)
+    mi = E.call(C_ + "ChoiceMap.entry", E.new(FT + ":Mask", value=a, flag=fl), i_, "x")
+    pi, vi = obs(E, E.method(E.method(mi, "get_submap", j_, "x"), "get_value"))
+    hit = i_.t == j_.t
+    E.prove("C35.Indexed.masked_entry_is_present_iff_index_hit_and_flag", E.And(
+        pi == z3.And(hit, fl.t), E.Implies(z3.And(hit, fl.t), E.eq(vi, a)) if vi is not None else E.Not(z3.And(hit, fl.t))))
     E.prove("C17.Choice.static_address_below_a_value_is_empty",
             E.Not(obs(E, E.method(E.method(E.call(C_ + "ChoiceMap.choice", a), "get_submap", "x"), "get_value"))[0]))
     E.refutable("chm.choice_build", present)
